@@ -516,6 +516,17 @@ theorem nothing_pending_after_transfer (nAcc h0 : Nat) (vals : List (Nat × Nat)
     ∃ v'', v'.withdrawMsg h' d = .ok (v'', 0) :=
   transfer_nothing_pending cfg_good (reach_SInv cfg_good nAcc h0 vals hv ops hw) hf htn hne ht hd hdel hh
 
+/-- **third_party_rewards_unchanged.**  After any history, a successful transfer between two different accounts does
+not change what the `delegationRewards` view (end the period on a branch, `CalculateDelegationRewards`, truncate)
+reports for any *other* delegator of the validator, at any height: third parties' reward entitlements are conserved
+exactly, including the effect of the two extra periods the transfer ends and of slash events. -/
+theorem third_party_rewards_unchanged (nAcc h0 : Nat) (vals : List (Nat × Nat)) (hv : vals.length ≤ nAcc) (ops : List Op)
+    {w : Nat} (hw : w < vals.length) {v' : VS} {h f t X rf rt : Nat} {recv : Bool} (hf : f < nAcc) (htn : t < nAcc)
+    (hne : f ≠ t) (ht : VS.transfer cfg (reachVS nAcc h0 vals ops w) h f t X recv = .ok (v', rf, rt))
+    {d : Nat} (hdf : d ≠ f) (hdt : d ≠ t) (hq : Nat) :
+    v'.pendingRewards hq d = (reachVS nAcc h0 vals ops w).pendingRewards hq d :=
+  transfer_third_party cfg_good (reach_SInv cfg_good nAcc h0 vals hv ops hw) hf htn hne ht hdf hdt hq
+
 /-- **transfer_frame.**  A transfer leaves every third party's reward entitlement alone: for every delegator other
 than the two parties the delegation and the starting info are unchanged, the cumulative reward ratio of every period
 that existed before the call is unchanged, the slash events are unchanged, and the validator's tokens and total
